@@ -192,6 +192,23 @@ def skeleton(seq):
     return renumber(rec(seq))
 
 
+def keep_arms(seq, levels):
+    """keep, in the dispatch at nesting level k, only the arms whose constant is in levels[k] (None = keep all):
+    the property that uses this projection is about some variants only"""
+    def rec(sq, lvl):
+        steps = []
+        for st in sq["steps"]:
+            if st[0] == "switch":
+                keep = levels[lvl] if lvl < len(levels) else None
+                arms = [[c, rec(s, lvl + 1)] for c, s in st[3] if keep is None or c in keep]
+                steps.append([st[0], st[1], st[2], arms, rec(st[4], lvl + 1) if keep is None else CUT])
+            else:
+                steps.append(_map_nested(st, lambda s: rec(s, lvl)))
+        return {"steps": steps, "ret": sq["ret"]}
+    from .pir import renumber
+    return renumber(rec(seq, 0))
+
+
 def compare(F, path, specfn, gen=(), extra=None, project=None):
     """-> dict(ok, diff, anomalies, opaque, code, spec).  project: None | ("cut", depth) | ("skeleton",)"""
     try:
@@ -206,8 +223,13 @@ def compare(F, path, specfn, gen=(), extra=None, project=None):
         if project[0] == "cut":
             cs, ss = cut_regions(cs, project[1]), cut_regions(ss, project[1])
         elif project[0] == "skeleton":
+            d = project[1] if len(project) > 1 else None
+            if d is not None:
+                cs, ss = cut_regions(cs, d), cut_regions(ss, d)
             cs, ss = skeleton(cs), skeleton(ss)
+        elif project[0] == "arms":
+            cs, ss = keep_arms(cs, project[1]), keep_arms(ss, project[1])
     d = diff(ss, cs)
     opq = find_opaque(cs)
-    anomalies = ev.anomalies if not project or project[0] != "cut" else []
+    anomalies = ev.anomalies if not project or project[0] not in ("cut", "arms") else []
     return {"ok": d is None and not opq and not anomalies, "diff": d, "anomalies": anomalies, "opaque": opq[:3], "code": cs, "full_code": full_cs, "spec": ss, "called": sorted(ev.called)}
